@@ -194,6 +194,7 @@ class Node:
             "cwd": os.path.relpath(os.getcwd(), self.root),
             "start_cwd": self.init.get("start_cwd", self.init.get("cwd", "")),
             "knobs": dict(self.knobs, pool_backend="inproc"),
+            "env": dict(self.init.get("env", {})),
             "role": "worker",
         }
         rn = RemoteNode(self.zsock, init, sink=self.events)
